@@ -25,7 +25,7 @@ def type_code(s):
     m = re.match(r'main\.I(\d+)$', s)
     if m:
         return 16 + int(m.group(1))
-    if s == "<-chan int":
+    if s == "map[*main.Prov]<-chan int":
         return 20
     raise ValueError("unknown type string " + s)
 
